@@ -99,6 +99,12 @@ def check(rep: Report, tier: str, seed: int, prop: str = None):
             rep.add_tlc("RunLifecycle/MC", res, {"NP": 2}, "every exit path x producer faults x both dispatchers x interleavings of producer tasks")
             if not res.ok:
                 rep.violation(Violation("C14", res.violated, "mc", {"trace": (res.counterexample or [])[-2:]}, discriminator="model:lifecycle"))
+            if not quick:
+                res3 = tlc.run("RunLifecycle", tlc.cfg_text({"NP": 3, "FixLogMode": True, "GuardEach": True}, invariants=LIFE_INVS), workdir=wd,
+                               timeout=1800)
+                rep.add_tlc("RunLifecycle/MC", res3, {"NP": 3}, "three producers: every exit path x producer faults x both dispatchers x interleavings")
+                if not res3.ok:
+                    rep.violation(Violation("C14", res3.violated, "mc", {"trace": (res3.counterexample or [])[-2:]}, discriminator="model:lifecycle3"))
             bad = tlc.run("RunLifecycle", tlc.cfg_text({"NP": 2, "FixLogMode": True, "GuardEach": False}, invariants=LIFE_INVS), workdir=wd,
                           dump_trace=False)
             if bad.ok:
@@ -111,7 +117,27 @@ def check(rep: Report, tier: str, seed: int, prop: str = None):
             if not res.ok:
                 rep.violation(Violation(prop, res.violated, "mc", {"constants": consts, "trace": (res.counterexample or [])[-2:]},
                                         discriminator="model:rt"))
+        # beyond the exhaustive bounds: random behaviours of the same model at larger constants (TLC -simulate)
+        for k, consts in enumerate([dict(MaxC=2, NJobs=3, NEvents=4, NIdle=2, MaxNow=8, FixPool=True)]
+                                   + ([] if quick else [dict(MaxC=3, NJobs=2, NEvents=5, NIdle=3, MaxNow=10, FixPool=True)])):
+            res = tlc.run("RtDispatcher", tlc.cfg_text(consts, invariants=RT_INVS), workdir=wd, mode="sim", sim_num=150 if quick else 4000,
+                          sim_depth=120, seed=seed + k, workers=8, timeout=900)
+            rep.add_tlc("RtDispatcher/SIM", res, consts, "random behaviours of the realtime loop model beyond the exhaustive bounds (depth 120)")
+            if not res.ok:
+                rep.violation(Violation(prop, res.violated, "mc", {"constants": consts, "trace": (res.counterexample or [])[-2:]},
+                                        discriminator="model:rt-sim"))
         if not quick:
+            consts = dict(MaxC=2, NJobs=2, NEvents=3, NIdle=1, MaxNow=4, FixPool=True)
+            res = tlc.run("RtDispatcher", tlc.cfg_text(consts, invariants=RT_INVS), workdir=wd, timeout=2400)
+            rep.add_tlc("RtDispatcher/MC", res, consts, "deeper exhaustive configuration: pool of two, two jobs, three events, one idle handler")
+            if not res.ok:
+                rep.violation(Violation(prop, res.violated, "mc", {"constants": consts, "trace": (res.counterexample or [])[-2:]},
+                                        discriminator="model:rt"))
+            bad = tlc.run("RtDispatcher", tlc.cfg_text(dict(MaxC=2, NJobs=3, NEvents=4, NIdle=2, MaxNow=8, FixPool=False), invariants=RT_INVS),
+                          workdir=wd, mode="sim", sim_num=4000, sim_depth=120, seed=seed, workers=8, timeout=900, dump_trace=False)
+            if bad.ok:
+                raise tlc.MachineryError("must-fail simulation (pool without the double-collection guard, larger constants) was accepted")
+            rep.extra["must_fail_sim"] = {"FixPool": False, "violated": bad.violated}
             res = tlc.run("RtDispatcher", tlc.cfg_text(dict(MaxC=1, NJobs=1, NEvents=2, NIdle=0, MaxNow=4, FixPool=False), invariants=RT_INVS),
                           workdir=wd, dump_trace=False)
             if res.ok:
